@@ -248,6 +248,71 @@ def apalache_inductive(module, has_consts, workdir, timeout=900):
     return res
 
 
+# --------------------------------------------------------------------------- Miri tier
+MIRIFLAGS = '-Zmiri-disable-isolation -Zmiri-disable-stacked-borrows'
+
+
+def select_states(tlc_out, n):
+    """operation alphabet and an evenly spread selection of n state paths from a TLC output"""
+    ops, states = None, []
+    with open(tlc_out, errors='replace') as f:
+        for line in f:
+            m = re.match(r'^<<"(OPS|STATE)", "(.*)">>\s*$', line)
+            if not m:
+                continue
+            v = json.loads(json.loads('"%s"' % m.group(2)))
+            if m.group(1) == 'OPS':
+                ops = [o for o in v['ops'] if o['op'] != 'ro']
+            else:
+                states.append(v['path'])
+    if not states:
+        return ops, []
+    step = max(1, len(states) // n)
+    return ops, states[::step][:n]
+
+
+def miri_cmd(extra_cfg=()):
+    d = os.path.join(VERIF, 'harness')
+    cmd = ['cargo', '+nightly', 'miri', 'run', '--offline', '--quiet', '--manifest-path', os.path.join(d, 'Cargo.toml')]
+    if REPO != '/repo':
+        cmd += ['--config', 'paths=["%s"]' % REPO]
+    return cmd
+
+
+def miri_runs(shards, workdir, timeout):
+    """shards: list of (tag, kind, cfg, keys, driver_file, flags). Runs them under Miri in parallel.
+    Returns list of dicts(tag, rc, ub (bool), tail, stats)."""
+    env = dict(os.environ, MIRIFLAGS=MIRIFLAGS, CARGO_NET_OFFLINE='true',
+               CARGO_TARGET_DIR=os.path.join(VERIF, 'work', 'miri-target' + ('' if REPO == '/repo' else '-' + hashlib.sha1(REPO.encode()).hexdigest()[:8])))
+    # build once (empty driver)
+    empty = os.path.join(workdir, 'empty.drv')
+    open(empty, 'w').close()
+    p = subprocess.run(miri_cmd() + ['--', 'exec', '--kind', 'raw', '--cfg', '{"cap":1}', '--keys', '1', '--in', empty, '--light'],
+                       cwd=os.path.join(VERIF, 'harness'), env=env, stdout=subprocess.PIPE, stderr=subprocess.PIPE, text=True, timeout=1200)
+    if p.returncode != 0:
+        raise ToolError('miri build/run failed: ' + p.stderr[-1500:])
+
+    def one(s):
+        tag, kind, cfg, keys, drv, flags = s
+        cmd = miri_cmd() + ['--', 'exec', '--kind', kind, '--cfg', json.dumps(cfg), '--keys', str(keys), '--in', drv, '--light'] + list(flags)
+        t0 = time.time()
+        try:
+            q = subprocess.run(cmd, cwd=os.path.join(VERIF, 'harness'), env=env, stdout=subprocess.PIPE, stderr=subprocess.PIPE, text=True, timeout=timeout)
+            rc, err = q.returncode, q.stderr
+        except subprocess.TimeoutExpired as e:
+            rc, err = 124, (e.stderr or b'').decode(errors='replace') if isinstance(e.stderr, bytes) else (e.stderr or '')
+        ub = 'Undefined Behavior' in err or 'error: unsupported operation' in err or 'memory leaked' in err
+        stats = None
+        for line in err.splitlines():
+            if line.startswith('{'):
+                try:
+                    stats = json.loads(line)
+                except Exception:
+                    pass
+        return dict(tag=tag, rc=rc, ub=ub, tail=err[-1500:], stats=stats, wall_s=round(time.time() - t0, 1), driver=drv)
+    return pool_map(one, shards, max(2, NCPU - 2))
+
+
 # --------------------------------------------------------------------------- harness exec
 def harness_exec(binary, kind, cfg, keys, infile, outprefix, flags=(), shard=20000, extra=(), timeout=3600):
     cmd = [binary, 'exec', '--kind', kind, '--cfg', json.dumps(cfg), '--keys', str(keys), '--in', infile,
